@@ -325,12 +325,129 @@ fn dump_graph(g: &G) -> String {
     out
 }
 
+/// outcome of a per-vertex list query: `Ok(sorted ids)` / `Err(text)` (error kind or `panic`)
+fn lq(r: Option<Result<Vec<usize>, falcon::Error>>) -> Result<Vec<usize>, String> {
+    match r {
+        None => Err("panic".to_string()),
+        Some(Err(e)) => Err(gerr(&e)),
+        Some(Ok(v)) => Ok(sorted(v)),
+    }
+}
+
+fn lq_str(r: &Result<Vec<usize>, String>) -> String {
+    match r {
+        Ok(v) => plus(v),
+        Err(e) => e.clone(),
+    }
+}
+
+/// every public per-vertex query on every id the history ever mentions (and one it never mentions), every
+/// per-edge query on every pair it mentions.  `Q=ok` when each id answers in one of the two consistent ways:
+/// present (listed by vertices(), has_vertex, vertex Ok, the three successor queries Ok and equal, the three
+/// predecessor queries Ok and equal) or absent (not listed, !has_vertex, all seven other queries
+/// Err(GraphVertexNotFound(id))); anything else is printed in full after `Q=!`.  Likewise `X=` for pairs.
+fn probe(g: &G, ids: &[usize], pairs: &[(usize, usize)]) -> String {
+    let vs: Vec<usize> = catch(|| g.vertices().iter().map(|v| v.index()).collect::<Vec<usize>>()).unwrap_or_default();
+    let es: Vec<(usize, usize)> =
+        catch(|| g.edges().iter().map(|e| (e.head(), e.tail())).collect::<Vec<_>>()).unwrap_or_default();
+    let mut qbad: Vec<String> = Vec::new();
+    for &v in ids {
+        let listed = vs.contains(&v);
+        let hv = catch(|| g.has_vertex(v));
+        let vx = match catch(|| g.vertex(v).map(|x| x.index())) {
+            None => "panic".to_string(),
+            Some(Ok(i)) => if i == v { "ok".to_string() } else { format!("ok:{}", i) },
+            Some(Err(e)) => gerr(&e),
+        };
+        let ei = lq(catch(|| {
+            g.edges_in(v).map(|es| {
+                if es.iter().all(|e| e.tail() == v) { es.iter().map(|e| e.head()).collect::<Vec<usize>>() } else { vec![usize::MAX] }
+            })
+        }));
+        let eo = lq(catch(|| {
+            g.edges_out(v).map(|es| {
+                if es.iter().all(|e| e.head() == v) { es.iter().map(|e| e.tail()).collect::<Vec<usize>>() } else { vec![usize::MAX] }
+            })
+        }));
+        let su = lq(catch(|| g.successors(v).map(|xs| xs.iter().map(|x| x.index()).collect::<Vec<usize>>())));
+        let pr = lq(catch(|| g.predecessors(v).map(|xs| xs.iter().map(|x| x.index()).collect::<Vec<usize>>())));
+        let si = lq(catch(|| g.successor_indices(v)));
+        let pi = lq(catch(|| g.predecessor_indices(v)));
+        let vnf = Err(format!("err:vnf:{}", v));
+        let present = listed && hv == Some(true) && vx == "ok" && si.is_ok() && su == si && eo == si && pi.is_ok() && pr == pi && ei == pi;
+        let absent = !listed && hv == Some(false) && vx == format!("err:vnf:{}", v)
+            && ei == vnf && eo == vnf && su == vnf && pr == vnf && si == vnf && pi == vnf;
+        if !(present || absent) {
+            let hvs = match hv { Some(true) => "t", Some(false) => "f", None => "panic" };
+            qbad.push(format!(
+                "{}:listed={},hv={},vx={},ei={},eo={},su={},pr={},si={},pi={}",
+                v, if listed { "t" } else { "f" }, hvs, vx, lq_str(&ei), lq_str(&eo), lq_str(&su), lq_str(&pr), lq_str(&si), lq_str(&pi)
+            ));
+        }
+    }
+    let mut xbad: Vec<String> = Vec::new();
+    for &(h, t) in pairs {
+        let listed = es.contains(&(h, t));
+        let he = catch(|| g.has_edge(h, t));
+        let ed = match catch(|| g.edge(h, t).map(|e| (e.head(), e.tail()))) {
+            None => "panic".to_string(),
+            Some(Ok(e)) => if e == (h, t) { "ok".to_string() } else { format!("ok:{}>{}", e.0, e.1) },
+            Some(Err(e)) => gerr(&e),
+        };
+        let present = listed && he == Some(true) && ed == "ok";
+        let absent = !listed && he == Some(false) && ed == format!("err:enf:{}>{}", h, t);
+        if !(present || absent) {
+            let hes = match he { Some(true) => "t", Some(false) => "f", None => "panic" };
+            xbad.push(format!("{}>{}:listed={},he={},ed={}", h, t, if listed { "t" } else { "f" }, hes, ed));
+        }
+    }
+    let q = if qbad.is_empty() { "ok".to_string() } else { format!("!{}", qbad.join("/")) };
+    let x = if xbad.is_empty() { "ok".to_string() } else { format!("!{}", xbad.join("/")) };
+    format!("Q={} X={}", q, x)
+}
+
+/// falcon's graph compared (`==`, derived over all four maps) with a graph rebuilt from its own vertices()/edges()
+fn eq_rebuilt(g: &G) -> String {
+    match catch(|| {
+        let mut r: G = Graph::new();
+        for v in g.vertices() {
+            r.insert_vertex(v.clone()).ok()?;
+        }
+        for e in g.edges() {
+            r.insert_edge(e.clone()).ok()?;
+        }
+        Some(*g == r && r == *g && g.cmp(&r) == std::cmp::Ordering::Equal)
+    }) {
+        None => "eq-rebuilt=panic".to_string(),
+        Some(None) => "eq-rebuilt=rebuild-failed".to_string(),
+        Some(Some(b)) => format!("eq-rebuilt={}", b),
+    }
+}
+
 fn answer_history(line: &str) -> String {
     let ops: Option<Vec<Op>> = line.split(" ; ").map(parse_op).collect();
     let ops = match ops {
         Some(o) => o,
         None => return "bad-request".to_string(),
     };
+    // every id / pair the history mentions anywhere, plus one id it never mentions
+    let mut ids: Vec<usize> = Vec::new();
+    let mut pairs: Vec<(usize, usize)> = Vec::new();
+    for op in &ops {
+        match op {
+            Op::Iv(v) | Op::Rv(v) | Op::Ru(v) => ids.push(*v),
+            Op::Ie(h, t) | Op::Re(h, t) => {
+                ids.push(*h);
+                ids.push(*t);
+                pairs.push((*h, *t));
+            }
+        }
+    }
+    ids.push(ids.iter().max().map(|m| m + 1).unwrap_or(0));
+    ids.sort_unstable();
+    ids.dedup();
+    pairs.sort_unstable();
+    pairs.dedup();
     let mut g: G = Graph::new();
     let mut dead = false;
     let mut out: Vec<String> = Vec::new();
@@ -352,10 +469,11 @@ fn answer_history(line: &str) -> String {
                 dead = true;
                 out.push("panic".to_string());
             }
-            Some(Ok(())) => out.push(format!("ok {}", dump_graph(&g))),
-            Some(Err(e)) => out.push(format!("{} {}", gerr(&e), dump_graph(&g))),
+            Some(Ok(())) => out.push(format!("ok {} {}", dump_graph(&g), probe(&g, &ids, &pairs))),
+            Some(Err(e)) => out.push(format!("{} {} {}", gerr(&e), dump_graph(&g), probe(&g, &ids, &pairs))),
         }
     }
+    out.push(if dead { "eq-rebuilt=dead".to_string() } else { eq_rebuilt(&g) });
     out.join(" ; ")
 }
 
